@@ -23,7 +23,7 @@ ENDINGS = ["close", "rst", "halfclose", "midline", "badutf8"]
 class Gen:
     def __init__(self, seed, world, weights=None, max_clients=5, nicks=None, chans=None,
                  hostile_masks=True, endings=None, server_password=None, multi_prefix_rate=0.3,
-                 mode_weights=None):
+                 mode_weights=None, invalid_nicks=False, empty_text=0.0):
         self.r = random.Random(seed)
         self.w = world
         self.weights = dict(DEFAULT_WEIGHTS)
@@ -36,6 +36,8 @@ class Gen:
         self.endings = endings or ENDINGS
         self.server_password = server_password
         self.mp_rate = multi_prefix_rate
+        self.invalid_nicks = invalid_nicks
+        self.empty_text = empty_text
         self.mode_weights = dict(zip("imtnsklbeIqaohv", [3, 3, 3, 3, 3, 3, 3, 4, 3, 3, 2, 2, 4, 3, 4]))
         if mode_weights:
             self.mode_weights.update(mode_weights)
@@ -55,6 +57,8 @@ class Gen:
         self.counter += 1
         base = "t%d-%d" % (self.counter, self.r.randrange(10 ** 6))
         k = self.r.random()
+        if self.empty_text and self.r.random() < self.empty_text:
+            return self.r.choice(["", " ", ":", "::", " : ", "a  b", ":-) x:y"])
         if k < 0.15:
             return base + " a:b :c"
         if k < 0.25:
@@ -293,6 +297,9 @@ class Gen:
         r = self.r
         cid = r.choice(live)
         k = r.random()
+        if self.invalid_nicks and r.random() < 0.12:
+            new = r.choice(["two words", "", " lead", "a b c"])
+            return ("act", cid, {"verb": "NICK", "nick": new, "line": "NICK :" + new})
         if k < 0.55:
             free = [n for n in self.nicks if n not in self.m.users]
             if not free:
